@@ -511,22 +511,81 @@ def _input_deps(prj, fi: FuncInfo, e, depth=0, seen=None) -> set:
     return out
 
 
+def _key_captures(prj, fi: FuncInfo, e, depth=0) -> set:
+    """the access paths whose VALUE is part of the key expression e: a parameter, an attribute chain on one, the elements of a
+    tuple, a local with one plain definition of such a form.  A call in the key (len(x), str(x), x.method()) captures a function
+    of its arguments, not the arguments: it contributes only itself."""
+    from ..core import local_defs
+    if depth > 6:
+        return set()
+    params = set(fi.params())
+    if isinstance(e, ast.Tuple):
+        out = set()
+        for x in e.elts:
+            out |= _key_captures(prj, fi, x, depth + 1)
+        return out
+    ch = attr_chain(e) if isinstance(e, (ast.Name, ast.Attribute)) else None
+    if ch and "()" not in ch:
+        head = ch.split(".")[0]
+        if head in params:
+            return {ch}
+        if isinstance(e, ast.Name):
+            defs = local_defs(fi, e.id)
+            if len(defs) == 1 and defs[0][0] is not None:
+                return _key_captures(prj, fi, defs[0][0], depth + 1)
+        return set()
+    if isinstance(e, ast.Call):
+        # a pure conversion that keeps all information of a hashable argument
+        if isinstance(e.func, ast.Name) and e.func.id in ("tuple", "frozenset") and len(e.args) == 1 and not e.keywords:
+            return _key_captures(prj, fi, e.args[0], depth + 1)
+        path = None
+        if isinstance(e.func, ast.Attribute):
+            c2 = attr_chain(e.func)
+            if c2 and c2.split(".")[0] in params and not e.args and not e.keywords:
+                path = c2 + "()"
+        return {path} if path else set()
+    return set()
+
+
+def _initially_empty_dict(prj, fi: FuncInfo, target) -> bool:
+    """the written object is a module-level name bound once, to an empty dictionary: what it holds comes from writes like this one"""
+    if not isinstance(target, ast.Name):
+        return False
+    mods = [fi.module]
+    imp = fi.module.imports.get(target.id)
+    if imp is not None:
+        tgt = prj._resolve_import(imp)
+        if isinstance(tgt, tuple) and tgt[0] == "modattr":
+            mods = [tgt[1]]
+            name = tgt[2]
+        else:
+            return False
+    else:
+        name = target.id
+    v = mods[0].assigns.get(name)
+    if v is None:
+        return False
+    if isinstance(v, ast.Dict) and not v.keys:
+        return True
+    return isinstance(v, ast.Call) and attr_chain(v.func) in ("dict", "OrderedDict", "collections.OrderedDict", "WeakValueDictionary", "weakref.WeakValueDictionary") \
+        and not v.args and not v.keywords
+
+
 def memo_verdict(prj, fi: FuncInfo, n):
-    """a write `G[key] = value` to a module-level dictionary, read as a memo: -> ('memo', missing inputs) where missing = inputs
-    the stored value is computed from that the key is not; ('other', None) when the write is not of that form"""
+    """a write `G[key] = value` to a module-level dictionary that starts empty, read as a memo: -> ('memo', missing inputs) where
+    missing = inputs the stored value is computed from whose value is not part of the key; ('other', None) when the write is not
+    of that form (a registry filled elsewhere, an attribute, a counter)"""
     if not isinstance(n, ast.Assign):
         return "other", None
     subs = [t for t in n.targets if isinstance(t, ast.Subscript)]
-    if len(subs) != 1:
+    if len(subs) != 1 or not _initially_empty_dict(prj, fi, subs[0].value):
         return "other", None
     key, val = subs[0].slice, n.value
-    kd, vd = _input_deps(prj, fi, key), _input_deps(prj, fi, val)
-    if "*" in vd and "*" not in kd:
+    kd, vd = _key_captures(prj, fi, key), _input_deps(prj, fi, val)
+    if "*" in vd:
         return "memo", {"(something that could not be traced)"}
     missing = set()
     for d in vd:
-        if d == "*":
-            continue
         # covered when the key holds the same access path, or the object it is read from as a whole
         prefixes = [d]
         base = d
